@@ -92,3 +92,10 @@ Theorem extension_removal_during_dispatch_skips_an_observer :
   = ([1; 2], [Del 0 (Ev 7); Del 2 (Ev 7)], [], false).
 Proof. exact live_removal_skips. Qed.
 Print Assumptions extension_removal_during_dispatch_skips_an_observer.
+
+(** events and replays interleaved on one LimitedHistoryLogObserver: EVERY replay — the first, and any later one with
+    events logged in between — shows exactly the last N events logged so far, oldest first *)
+Theorem every_replay_shows_the_last_N_events_so_far : forall size ops,
+  brun size [] ops = bspec size [] ops.
+Proof. exact brun_spec0. Qed.
+Print Assumptions every_replay_shows_the_last_N_events_so_far.
